@@ -248,6 +248,12 @@ package keeper
 //@       && has(AccountId, msg.AccountAuth.AccountDid) && AccountId[msg.AccountAuth.AccountDid].AccountId == msg.AccountId
 //@   ensures [C17.bind.payment] err == nil && !old(has(SidDocumentVersion, msg.RootDocId)) && caipNetwork(msg.AccountId) == "cosmos" && caipChain(msg.AccountId) == ChainID
 //@       && !old(has(PaymentAddress, msg.Proof.Did)) ==> has(PaymentAddress, msg.Proof.Did) && PaymentAddress[msg.Proof.Did].Address == caipAddress(msg.AccountId)
+//@   ensures [C17.bind.inv.nodup] old(forall d string, i int, j int :: has(AccountList, d) && 0 <= i && i < j && j < len(AccountList[d].AccountDids) ==> AccountList[d].AccountDids[i] != AccountList[d].AccountDids[j])
+//@       ==> forall d string, i int, j int :: has(AccountList, d) && 0 <= i && i < j && j < len(AccountList[d].AccountDids) ==> AccountList[d].AccountDids[i] != AccountList[d].AccountDids[j]
+//@   ensures [C17.bind.inv.listed] old(forall d string, j int :: has(AccountList, d) && 0 <= j && j < len(AccountList[d].AccountDids) ==> has(AccountId, AccountList[d].AccountDids[j])
+//@         && has(Did, AccountId[AccountList[d].AccountDids[j]].AccountId) && Did[AccountId[AccountList[d].AccountDids[j]].AccountId].Did == d)
+//@       ==> forall d string, j int :: has(AccountList, d) && 0 <= j && j < len(AccountList[d].AccountDids) ==> has(AccountId, AccountList[d].AccountDids[j])
+//@         && has(Did, AccountId[AccountList[d].AccountDids[j]].AccountId) && Did[AccountId[AccountList[d].AccountDids[j]].AccountId].Did == d
 //@   ensures [C17.bind.paykeep] old(has(PaymentAddress, msg.Proof.Did)) ==> has(PaymentAddress, msg.Proof.Did) && PaymentAddress[msg.Proof.Did] == old(PaymentAddress[msg.Proof.Did])
 //@   loop L1 invariant -1 <= rangeindex && rangeindex < len(accountList.AccountDids)
 //@   loop L1 invariant forall j int :: 0 <= j && j <= rangeindex ==> accountList.AccountDids[j] != accAuth.AccountDid
